@@ -68,6 +68,7 @@ class Recorder:
         self.net.on_recv_hook = self._on_recv
         self.net.on_send_hook = self._on_send
         self.tasks: List[Any] = []
+        self.last_info: Any = None
 
     def ev(self, _ev: str, **kw: Any) -> dict:
         e = {'ev': _ev, 't': self.net.now()}
@@ -116,8 +117,10 @@ class Recorder:
         from zeroconf.asyncio import AsyncServiceInfo
         forced = st.get('forced', 'none')
         qt = {'none': None, 'QU': DNSQuestionType.QU, 'QM': DNSQuestionType.QM}[forced]
-        info = AsyncServiceInfo(TYPE, recase(INST, st.get('sp', 0)))
-        self.ev('lookup', lid=lid, timeout=st['timeout'], forced=forced)
+        reuse = bool(st.get('reuse')) and self.last_info is not None
+        info = self.last_info if reuse else AsyncServiceInfo(TYPE, recase(INST, st.get('sp', 0)))
+        self.last_info = info
+        self.ev('lookup', lid=lid, timeout=st['timeout'], forced=forced, reuse=reuse)
         try:
             ok = await info.async_request(self.host.zc, st['timeout'], qt)
         except Exception as ex:  # noqa: BLE001
@@ -230,5 +233,30 @@ def gen_lookup(rng: random.Random, sid: str, thorough: bool = False) -> dict:
     steps: List[dict] = []
     for (tt, st) in evs:
         steps += [{'op': 'at', 't': tt}, st]
-    steps.append({'op': 'at', 't': t0 + timeout + 2000})
+    end = max([t0 + timeout] + [p[0] for p in evs]) + 2000
+    steps.append({'op': 'at', 't': end})
+    if rng.random() < 0.3:
+        # the application looks the service up again with the same object: meanwhile the SRV may have been retargeted to the
+        # other host (cache-flush bit set, so the old one runs out after a second), addresses may have arrived or not
+        other_srv = 2 if srv == 1 else 1
+        other_host_addrs = [8] if other_srv == 2 else [5, 6, 7]
+        t1 = end
+        mid: List[Tuple[int, dict]] = []
+        r = rng.random()
+        if r < 0.4:
+            mid.append((t1 + 100, {'op': 'recv', 'items': [{'id': other_srv, 'ttl': 120, 'fl': True, 'sp': 0}]}))
+            if rng.random() < 0.4:
+                mid.append((t1 + 300, {'op': 'recv', 'items': [{'id': rng.choice(other_host_addrs), 'ttl': 120, 'sp': 0}]}))
+        elif r < 0.8:
+            ids2 = rng.sample([srv, txt] + addr_ids, rng.choice([1, 2, 3]))
+            mid.append((t1 + 100, {'op': 'recv', 'items': [{'id': i, 'ttl': rng.choice([120, 4500]), 'sp': 0} for i in ids2]}))
+        for (tt, st) in mid:
+            steps += [{'op': 'at', 't': tt}, st]
+        t2 = t1 + rng.choice([1500, 2600, 12000])
+        timeout2 = rng.choice([200, 3000])
+        steps += [{'op': 'at', 't': t2}, {'op': 'lookup', 'timeout': timeout2, 'forced': 'none', 'sp': 0, 'reuse': True}]
+        if rng.random() < 0.5:
+            steps += [{'op': 'at', 't': t2 + rng.choice([100, 500, 1300])},
+                      {'op': 'recv', 'items': [{'id': i, 'ttl': 120, 'sp': 0} for i in rng.sample(addr_ids + other_host_addrs, 2)]}]
+        steps.append({'op': 'at', 't': t2 + timeout2 + 2000})
     return {'id': sid, 'seed': rng.randint(0, 10 ** 9), 'steps': steps, 'rand': rng.choice([None, None, 'lo', 'hi'])}
